@@ -216,7 +216,7 @@ int SimulateRiscv::get_register(const char *name)
   int num = strtol(name + 1, &s, 10);
 
   if (*s != 0) { return -1; }
-  if (num < 0 || num > 32) { return -1; }
+  if (num < 0 || num > 31) { return -1; }
 
   return num;
 }
